@@ -224,13 +224,32 @@ class SpawnProcess(multiprocessing.context.SpawnProcess):
             # E.g. the result could not be unpickled in this process.
             error = exc
 
-        self._logger_queue_.put(None)
         self._result_and_error_.close()
         self._result_and_error_ = None
         if error is not None:
             self._future_.set_exception(error)
         else:
             self._future_.set_result(result)
+
+        # The child flushes its log queue before it exits; ending the logger
+        # thread any earlier would lose records (and a child with many unflushed
+        # records could never exit). Do it in the background, so that `join` is
+        # not held up by the handling of the child's last records.
+        Thread(
+            target=self._close_logger,
+            args=(self.sentinel,),
+            name=f'{self.name}-LoggerCloserThread',
+            daemon=self._logger_thread_.daemon,
+        ).start()
+
+    def _close_logger(self, sentinel):
+        # Wait on the sentinel rather than polling `exitcode`, so as not to reap
+        # the child under a concurrent `join`.
+        multiprocessing.connection.wait([sentinel])
+        self._logger_queue_.put(None)
+        self._logger_thread_.join()
+        # Now every record of the child has been handled, and the finalizer
+        # (which may run during garbage collection) has no thread left to wait for.
 
     @staticmethod
     def _finalize(logger_thread, q):
